@@ -111,6 +111,8 @@ def make_run(W, shape, known_active=None):
     CH = [0, 1, n]
 
     def inst(c):
+        if c == "cls":
+            return W.K[0]            # a class passed as the argument (pools with a type[K] method)
         return W.inst[c] if c != n else object()
 
     def prio(m):
@@ -149,6 +151,8 @@ def make_run(W, shape, known_active=None):
             last = i == len(ops) - 1
             sel = 3 if not live else (shape["probes"][i] if not last else 0)
             probes = CH if last and live else ([CH[sel]] if sel < 3 else [])
+            if live and any(md.get("typeann") is not None for md in pool):
+                probes = list(probes) + ["cls"]
             for c in probes:
                 got = probe(ov, LOG, c)
                 ref, hs2, LOG2 = mk()
